@@ -60,19 +60,19 @@ CONC_RULE = ("C-mode: N client threads (2-16) on 1-8 keys against one real cache
 ADDENDA = {
     "C01": "One shard of admission decisions (comp c06, a few of them among 1500 residents) runs under C01: an accepted put must leave the total within the limit.",
     "C02": "Iterators are also interrupted (an acknowledged write or a clock movement between two items: every next() is a read of its own), consumed through nth(), and run over 65-200 positions with repeats.",
-    "C03": "A sixth of the histories use weights around 2^34; every second cache is configured through the public Config fields after build().",
-    "C04": "'release' also issues two deletes behind a held worker (no acknowledgement may claim 'accepted' or 'does not exist' while the key is still stored and charged); 'fanout' deletes thousands of keys while the sweeper evicts them.",
+    "C03": "A quarter of the histories may put a key that is past its time-to-live and not yet swept (refused today: the recorded C07 finding, which ends the history; if it is admitted the old charge must not linger and cost a live key its place). A sixth of the histories use weights around 2^34; every second cache is configured through the public Config fields after build().",
+    "C04": "Typed flavour: at the quiescent point after an accepted delete the number of live value instances (created + cloned - dropped, counted by the value type itself) must come down to the number of stored entries - a deleted value the cache still owns while every thread is idle has not been released. 'release' also issues two deletes behind a held worker (no acknowledgement may claim 'accepted' or 'does not exist' while the key is still stored and charged); 'fanout' deletes thousands of keys while the sweeper evicts them.",
     "C05": "'fanout': thousands of distinct keys put at the same moment (ids pairwise distinct, each charged, total = sum); 'held-client' pipelines weight updates behind a held worker.",
     "C06": "Capacity hints 1-16 with more victims than the hint; one decision in 150 among 1500 residents; evicting must not stop while victims remain; 'estimate' (readers + a storm of never-read keys) must not evict a resident with recorded hits; a refused put stores nothing.",
     "C07": "'fanout' (every absent-reading key can be put again after full sweep cycles), 'held-ref', 'release', the expired-key sweep race followed to the point where the extended TTL has passed, and racing puts that each weigh the whole cache.",
-    "C08": "The custom weight function charges its own TTL surcharge; builder setters are called in varying order; the clock may move inside a TTL upsert.",
+    "C08": "Every second pipelined burst of 'held-client' is sized so that the command queue is exactly full when its last weight upsert is sent (from a helper thread, blocked in its send until the held worker resumes): the charged weight must still be that last one's. The custom weight function charges its own TTL surcharge; builder setters are called in varying order; the clock may move inside a TTL upsert.",
     "C10": "'fanout' bursts (over a thousand keys due in one sweep of one shard), 'slow-tick' (2-3 s ticks), 'held-ref' (a reader keeps reference guards while a key of the shard expires), revival upserts of expired keys, the sweeper holding its shard for 150 ms.",
     "C11": "Every fourth burst runs in a cache so small that the puts evict each other, with reader threads; 'drop-backlog' drops the last handle with writes still queued; the shutdown scenario runs too; thorough tier: a 12 s stall behind a full queue and 62 s without a write.",
     "C12": "'c12-busy': a long-lived completer and poller in a tight loop (300 000 acknowledgements per shard); the mixed clients also await writes issued from inside map_get closures.",
     "C13": "Shutdown is also called from inside mapping functions; sequential histories whose command worker died end with shutdown(): it returns and every read is absent.",
     "C14": "Whole ageing windows of never-seen hashes; 70 000 first accesses in one window of 200 000 counters; every second shard runs without a logger; thorough tier: an estimate must survive 62 quiet seconds.",
-    "C15": "At quiescence the sketch's position inside its ageing window must equal (records handed over) mod counters; pools up to 1024 buffers and buffers up to 1000 records.",
-    "C17": "The stress workload of C18 runs here too (a wedged worker no longer completes writes); sub-millisecond sweeper ticks; single-counter sketches.",
+    "C15": "'estimate' (paced readers while a writer storms the full cache with puts that make the command worker consult the sketch) ends with the same quiescent identities: the consumer and the worker contend for the sketch's lock there. At quiescence the sketch's position inside its ageing window must equal (records handed over) mod counters; pools up to 1024 buffers and buffers up to 1000 records.",
+    "C17": "The configured clock also steps BACKWARDS (1 ms - 3 s, while no key carries a time-to-live, so that every later deadline is unambiguous) with sweeps on both sides of the step: a clock is any implementation of the public trait, and wall clocks are corrected. The stress workload of C18 runs here too (a wedged worker no longer completes writes); sub-millisecond sweeper ticks; single-counter sketches.",
     "C18": "One lock-holding site is stretched a few dozen times per case; clients call back into the cache from map_get closures, from the mapping iterator's function and between iterator items; acknowledgements are pre-polled by another task; the shutdown scenario runs too.",
 }
 
@@ -293,7 +293,7 @@ def _c14(seed, quick):
 def _c15(seed, quick):
     m, mb = (20, 40) if quick else (400, 420)
     return {
-        "shards": conc_shards("C15", seed, "stall", m, mb, shards=12) + seq_shards("C15", seed, 100 if quick else 2000, mb, shards=4),
+        "shards": conc_shards("C15", seed, "stall", m, mb, shards=10) + conc_shards("C15", seed, "estimate", 150 if quick else 20000, mb, shards=2) + seq_shards("C15", seed, 100 if quick else 2000, mb, shards=4),
         "rule": "1-16 reader threads over live and missing keys, pool in {1,2,32} x buffer in {1,2,64}; variant 0 stalls the consumer with a gate before it takes the "
                 "sketch lock, variant 1 slows it with delays, variant 2 lets it run; each reader performs pool*buffer*12+50 reads. distinct = (pool, buffer, readers, "
                 "variant, dropped?, hash mode); non-trivial = hits were recorded and the quiescent identities were evaluated. " + SEQ_RULE,
@@ -302,7 +302,7 @@ def _c15(seed, quick):
                        "and once more hits were recorded than the pipeline can hold AccessDropped must be > 0. At quiescence hits = added + dropped + buffered and the "
                        "number of records applied to the sketch (BatchApplied events) = AccessAdded.",
         "assumptions": COMMON_ASSUMPTIONS,
-        "require": ["runs_with_the_consumer_held_at_the_gate", "runs_where_buffers_were_dropped", "quiescent_identity_checks", "identity_samples_while_running"],
+        "require": ["runs_with_the_consumer_held_at_the_gate", "runs_where_buffers_were_dropped", "quiescent_identity_checks", "identity_samples_while_running", "quiescent_identity_checks_after_the_worker_consulted_the_sketch_during_reads"],
     }
 
 
